@@ -78,7 +78,19 @@ fn gen_message_with_writer(rng: &mut Rng, buf: &mut [u8], mode: TsigMode, rr: Pr
         };
         let _ = r;
     }
-    if rng.chance(1, 3) {
+    let edns = rng.chance(1, 3);
+    if rng.chance(1, 6) {
+        // many additional records: the ARCOUNT that the digest must
+        // decrement then crosses an octet boundary (255, 256, 257, 512 ...)
+        let target = *rng.pick(&[255usize, 256, 256, 257, 511, 512, 513]);
+        let already = w.arcount() as usize;
+        let extra = target.saturating_sub(already + 1 + edns as usize);
+        let root = qname(&RName::root());
+        for _ in 0..extra {
+            let _ = w.add_additional_rr(HintedName::new(Hint::None, &root), Type::from(99), Class::IN, Ttl::from(0), Rdata::empty(), None);
+        }
+    }
+    if edns {
         w.set_edns(1232).map_err(|e| format!("{:?}", e))?;
     }
     w.set_tsig(mode, rr).map_err(|e| format!("set_tsig: {:?}", e))?;
